@@ -20,6 +20,7 @@ FIRST_LAST = ("core::slice::<impl [T]>::first", "core::slice::<impl [T]>::last")
 INDEX_CALLS = ("<std::vec::Vec<T, A> as std::ops::Index<I>>::index", "<std::vec::Vec<T, A> as std::ops::IndexMut<I>>::index_mut",
                "core::slice::index::<impl std::ops::Index<I> for [T]>::index", "core::array::<impl std::ops::Index<I> for [T; N]>::index",
                "std::ops::Index::index")
+CAPACITY_SINKS = re.compile(r"std::vec::Vec::<T>::with_capacity|std::vec::Vec::<T, A>::(with_capacity_in|reserve|reserve_exact|resize)|std::vec::from_elem|std::string::String::(with_capacity|reserve|reserve_exact)|std::str::<impl str>::repeat|std::slice::<impl \\[T\\]>::repeat|std::collections::HashMap::<K, V>::with_capacity|std::collections::VecDeque::<T>::with_capacity")
 ASSERT_KINDS = ("Overflow", "OverflowNeg", "DivisionByZero", "RemainderByZero", "BoundsCheck")
 
 
@@ -118,6 +119,16 @@ class Inventory:
                     if not doc_panics and t.get("callee") and t["callee"] != name:
                         e2 = F.externals.get(t["callee"])
                         doc_panics = bool(e2 and e2.get("doc_panics"))
+                    if CAPACITY_SINKS.fullmatch(name):
+                        s = Site(fn, bid, "alloc-size", name, self._size_desc(du, t, name), sp["file"], sp["line"], sp["exp"])
+                        idx = 1 if name in ("std::vec::from_elem",) or "::reserve" in name or "::resize" in name or "::repeat" in name else 0
+                        if idx < len(t["args"]):
+                            v = strip_casts(du.val_operand(t["args"][idx]))
+                            k = const_int(v)
+                            if (k is not None and k < (1 << 32)) or _is_count(du, v):
+                                s.status, s.reason = "exempt", "allocation size is a constant or an in-memory length"
+                        out.append(s)
+                        continue
                     if doc_panics or name in INDEX_CALLS:
                         s = Site(fn, bid, "std-panics", name, self._arg_desc(du, t), sp["file"], sp["line"], sp["exp"])
                         why = self.exempt_reason(name)
@@ -249,6 +260,19 @@ class Inventory:
         self._succ[fn.def_] = ok
         return ok
 
+    def _size_desc(self, du, t, name):
+        idx = 1 if name in ("std::vec::from_elem",) or "::reserve" in name or "::resize" in name or "::repeat" in name else 0
+        if idx >= len(t["args"]):
+            return "-"
+        v = strip_casts(du.val_operand(t["args"][idx]))
+        if v[0] == "const":
+            return "const %s" % (v[1],)
+        if v[0] == "call":
+            return "call:" + short(v[1])
+        if v[0] == "place":
+            return "place:" + fmt_place(du.fn, v[1], stable=True)
+        return v[0]
+
     def _arg_desc(self, du, t):
         if not t["args"]:
             return "-"
@@ -264,6 +288,11 @@ class Inventory:
 
     def _classify_std(self, s, fn, du, g, t, name, bid):
         args = t["args"]
+        if re.fullmatch(r"core::slice::<impl \[T\]>::(windows|chunks|chunks_exact|rchunks|chunks_mut|chunk_by)", name) and len(args) == 2:
+            k = const_int(strip_casts(du.val_operand(args[1])))
+            if k is not None and k > 0:
+                s.status, s.reason = "guarded", "non-zero constant window/chunk size %d" % k
+                return
         if name in INDEX_CALLS and len(args) == 2:
             idx = strip_casts(du.val_operand(args[1]))
             k = const_int(idx)
